@@ -100,6 +100,7 @@ type caseM struct {
 	ExpandCheck bool            `json:"expand_check"`
 	Pretouch    bool            `json:"pretouch"`
 	ConcFirst   bool            `json:"conc_first,omitempty"`
+	PoolsRetain bool            `json:"pools_retain,omitempty"`
 	// replay-file extras (ignored by the worker)
 	Expect   *expectM `json:"expect,omitempty"`
 	History  *histM   `json:"process_history,omitempty"`
